@@ -9,8 +9,8 @@ Property theorems only.  They are about the hand-written model `CopVerif.Model.V
 `tools/props/c16.py`): `trainVine vt d t cs` is `VineCopula.train_vine` on `d` columns with
 `truncated = t`, where `cs` supplies, per tree, the tau matrix `Tree.fit` received and the
 tie-breaking made where Python's is unspecified.  `trainVine … = .ok r` means: the choice sequence
-is one the code could have made (every step accepted) and no exception was raised — so every
-theorem with that hypothesis holds for EVERY accepted run.
+is one the code could have made (every step accepted) and no exception was raised — so a theorem
+with that hypothesis holds for EVERY accepted run.
 
 `α` is any preorder with the numeric signature (`ℝ` in particular); nothing about the order of the
 tau values is assumed beyond the hypotheses `ChoicesOK` (see there), which hold for every matrix
